@@ -47,12 +47,65 @@ def instances(tier, seed):
                                         symbolic=["all scratch bytes", "operands |x|<2^60", "prior result"], stubs=[("poulpy_cpu_ref::hal_defaults::scratch::take_slice_aligned", "crate::vz::take_slice_aligned_stub")],
                                         functions=[f"{D}/vec_znx.rs::vec_znx_{oname}_default (+ its *_tmp_bytes)", f"{D}/scratch.rs::take_slice_aligned"], timeout=900,
                                         core=(be == "fft64" and nn in (1, 4) and p == ps[0] and op in (0, 2, 4, 5, 9)) or (be == "ntt120" and nn == 2 and op in (0, 4))))
+    return out + core_frame_instances() + exact_encrypt_instances()
+
+
+def exact_encrypt_instances():
+    import c01
+    out = []
+    for n, rank, sp in ((2, 1, 5), (8, 1, 5 + 9 * 7 + 81 * 2)):
+        enc, dec = c01.glwe_tmp(n, 1)
+        ar = (max(enc, dec) + 7) // 8
+        out.append(Instance(crate="hk_core", family="core.glwe_encrypt_decrypt_exact_scratch", name=f"c12_glwe_encdec_exact_n{n}",
+                            call=f"crate::c01_glwe::glwe_roundtrip::<{n}, 12, 12, 1, 12, 12, 0, {ar}, true>({rank}, {sp})", unwind=2 * n * (rank + 1) + 12,
+                            params={"n": n, "base2k": 12, "k": 12, "rank": rank, "scratch": "exactly glwe_encrypt_sk_tmp_bytes / glwe_decrypt_tmp_bytes"},
+                            symbolic=["message", "mask words", "error", "all scratch bytes", "prior ciphertext"], stubs=c01.CORE_STUBS,
+                            functions=["poulpy-core/src/encryption/glwe.rs::glwe_encrypt_sk (+ glwe_encrypt_sk_tmp_bytes)", "poulpy-core/src/decryption/glwe.rs::glwe_decrypt_default (+ tmp_bytes)"],
+                            timeout=2400, mem_gb=28, core=True))
+    return out
+
+
+FRAME_STUBS = [("std::fmt::format", "crate::stubs::fmt_stub"), ("poulpy_cpu_ref::hal_defaults::scratch::take_slice_aligned", "crate::stubs::take_slice_aligned_stub")]
+FRAME_OPS = ["keyswitch", "keyswitch_assign", "external_product", "external_product_assign", "automorphism", "automorphism_assign", "automorphism_add", "automorphism_sub", "automorphism_sub_negate"]
+FRAME_FILES = {0: "poulpy-core/src/keyswitching/glwe.rs", 2: "poulpy-core/src/external_product/glwe.rs", 4: "poulpy-core/src/automorphism/glwe_ct.rs"}
+
+
+def core_frame_instances(ops=None):
+    out = []
+    # (b, bk, k_in, k_key, k_out, dsize, dnum, rank_in, rank_out)
+    shapes = [(12, 12) + t for t in [(24, 36, 24, 1, 2, 1, 1), (24, 36, 36, 1, 2, 1, 1), (36, 60, 36, 2, 2, 1, 1), (24, 36, 24, 1, 2, 2, 2), (24, 36, 24, 1, 1, 1, 1), (24, 36, 12, 1, 2, 1, 1), (24, 36, 24, 1, 2, 2, 1), (24, 36, 24, 1, 2, 1, 2)]] + [(17, 12, 34, 36, 34, 1, 3, 1, 1), (12, 17, 24, 34, 24, 1, 2, 1, 1), (12, 12, 36, 60, 60, 3, 1, 1, 1)]
+    for op, oname in enumerate(FRAME_OPS):
+        if ops is not None and op not in ops:
+            continue
+        for b, bk, kin, kk, kout, dsize, dnum, ri, ro in shapes:
+            if op >= 2 and ri != ro:
+                continue
+            if dsize == 3 and op > 1:
+                continue
+            if op >= 6 and (kin != kout or dsize > 1):
+                continue
+            if op >= 4 and (b, bk) == (17, 12):  # calibrated: the 3-row cross-radix automorphism shapes exceed the time / memory caps
+                continue
+            if op in (1, 3, 5) and (ri != ro or kin != kout):
+                continue
+            for p, nsym in [(p, ns) for p in ((-1, 3, 5) if op >= 4 else (0,)) for ns in (2, 999)]:
+                core = (b, bk, kin, kk, kout, dsize, dnum, ri, ro) == (12, 12, 24, 36, 24, 1, 2, 1, 1) and p in (0, 3) and nsym == 2 and op in (0, 2, 8)
+                if nsym == 999 and not ((b, bk, kin, kk, kout, dsize, dnum, ri, ro) == (12, 12, 24, 36, 24, 1, 2, 1, 1) and p in (0, 3)):
+                    continue
+                cols_sz = 8 * (max(ri, ro) + 1) * -(-max(kin, kout) // b)
+                out.append(Instance(crate="hk_core", family=f"core.{oname}", name=f"c12_core_{oname}_b{b}_{bk}_kin{kin}_kk{kk}_ko{kout}_ds{dsize}_dn{dnum}_r{ri}{ro}_p{sgn(p)}_{'all' if nsym == 999 else f'sym{nsym}'}",
+                                    call=f"crate::core_frame::core_frame::<{b}, {bk}, {kin}, {kk}, {kout}, {dsize}, {dnum}, {op}, 1024, 768>({ri}, {ro}, {p}, {nsym})", unwind=max(cols_sz, 8 * (ro + 1) * -(-kk // bk) * (1 if op in (2, 3) else dnum * ri)) + 10,
+                                    params={"op": oname, "n": 8, "base2k": b, "key_base2k": bk, "k_in": kin, "k_key": kk, "k_out": kout, "dsize": dsize, "dnum": dnum, "rank_in": ri, "rank_out": ro, "galois_element": p, "symbolic_input_words": "all" if nsym == 999 else nsym},
+                                    symbolic=["every limb of the input ciphertext (normalised digits)", "two independent scratch fills (exactly the declared tmp_bytes)", "two independent prior output contents"], stubs=FRAME_STUBS,
+                                    functions=[FRAME_FILES[0 if op < 2 else 2 if op < 4 else 4] + f"::glwe_{oname} (+ its *_tmp_bytes)", "poulpy-core/src/keyswitching/glwe.rs::glwe_keyswitch_internal", "poulpy-core/src/layouts/prepared/*.rs::prepare",
+                                               "hk_core/src/probe_full.rs: Module<Probe> at N=8 over substituted leaf kernels", "poulpy-cpu-ref/src/reference/fft64/{vmp,vec_znx_dft,vec_znx_big}.rs", "poulpy-cpu-ref/src/hal_defaults/*.rs"],
+                                    timeout=3000 if nsym == 999 else 900, mem_gb=28, core=core))
     return out
 
 
 META = {
-    "bounds": "scratch windows: start offsets {0,8,24,40,63} mod 64, lengths {64,100,200,204,256}, take length symbolic; HAL pairs: n in {1,2,4} (limb byte sizes 8/16/32, all below the 64-byte alignment), 2 limbs, 2 columns, base2k=17, FFT64Ref and NTT120Ref marker modules",
-    "outside": "poulpy-core / ckks / bin-fhe (operation, tmp_bytes) pairs (their operations run through the DFT; DESIGN §2.4), DFT-domain HAL pairs, multi-thread variants, monotonicity of size queries",
+    "bounds": "core.* (key-switch, external product, automorphism family of poulpy-core on Module<Probe>, N=8): scratch of exactly the declared size, two runs with independent symbolic scratch and prior output, radices (12,12),(17,12),(12,17), dsize 1..3, ranks 1..2, 2 symbolic input words (all words: thorough); scratch windows: start offsets {0,8,24,40,63} mod 64, lengths {64,100,200,204,256}, take length symbolic; HAL pairs: n in {1,2,4} (limb byte sizes 8/16/32, all below the 64-byte alignment), 2 limbs, 2 columns, base2k=17, FFT64Ref and NTT120Ref marker modules",
+    "outside": "the other poulpy-core / ckks / bin-fhe (operation, tmp_bytes) pairs, N < 8 for poulpy-core pairs (known finding: level sizes are summed without the 64-byte re-alignment), DFT-domain HAL pairs, multi-thread variants, monotonicity of size queries",
     "assumptions": ["scratch window starts 64-byte aligned for the HAL pairs (as ScratchOwned::alloc provides)"],
     "stubs": ["take_slice_aligned (private, poulpy-cpu-ref/src/hal_defaults/scratch.rs) replaced, in the harnesses that run whole operations, by a copy that derives the 64-byte padding from the window offset inside the 64-byte-aligned harness arena instead of from the pointer integer (same function on these arenas; keeps scratch offsets constant for the engine); the real function is decided by the scratch.take_slice* harnesses"],
 }
